@@ -66,6 +66,18 @@ func ExpandTable(p *Program, db *ContractDB, fc *FnContract) ([]*FnContract, err
 		return nil, fmt.Errorf("%s: unknown key type %s", fc.Name, fc.KeyType)
 	}
 	var out []*FnContract
+	if len(fc.Fn.Params) > 1 {
+		// parameter table: the function itself is verified once per key, with its first parameter fixed to the key
+		// (a harness that dispatches on it); the key name must be that parameter's name
+		for _, k := range fc.Keys {
+			inst := *fc
+			inst.IsTable = false
+			inst.Name = fmt.Sprintf("%s[%s=%d]", FuncDisplayName(fc.Fn), fc.KeyName, k)
+			inst.Consts = map[string]Val{fc.KeyName: TV{T: BVInt(k, cw.w), Typ: fc.Fn.Params[0].Type()}}
+			out = append(out, &inst)
+		}
+		return out, nil
+	}
 	for _, k := range fc.Keys {
 		x := NewExec(p, db, fc.Fn)
 		st := &State{PC: TTrue, Heap: map[string]Term{}, Brk: BVInt(globalRefLimit, 32)}
@@ -76,6 +88,14 @@ func ExpandTable(p *Program, db *ContractDB, fc *FnContract) ([]*FnContract, err
 			return nil, fmt.Errorf("%s: dispatcher with key %d: %v", fc.Name, k, err)
 		}
 		fv, ok := res[0].(FuncV)
+		if tv, isTV := res[0].(TV); !ok && isTV {
+			// an entry read from a table of function values: a constant function id
+			if c, isConst := tv.T.Const(); isConst {
+				if fn, found := x.C.funcByID[int(c.Int64())].(*ssa.Function); found {
+					fv, ok = FuncV{Fn: fn}, true
+				}
+			}
+		}
 		if !ok || len(fv.Bindings) != 0 {
 			return nil, fmt.Errorf("%s: dispatcher with key %d does not return a plain function (got %T)", fc.Name, k, res[0])
 		}
@@ -150,7 +170,12 @@ func verifyFunctionPass(p *Program, db *ContractDB, fc *FnContract, preRegions m
 	x.C.Assume(And(bvCmp("bvuge", st.Brk, BVInt(globalRefLimit, 32)), bvCmp("bvult", st.Brk, BVUint(0x7fffffff, 32))), "initial allocator position")
 	var params []Val
 	for _, prm := range fn.Params {
-		v := x.symbolicParam(st, prm.Name(), prm.Type())
+		var v Val
+		if c, fixed := fc.Consts[prm.Name()]; fixed && fn.Name() != "" {
+			v = c // parameter table: this parameter is the instantiated key
+		} else {
+			v = x.symbolicParam(st, prm.Name(), prm.Type())
+		}
 		params = append(params, v)
 		res.ParamTerms = append(res.ParamTerms, ParamInfo{Name: prm.Name(), Val: v, Typ: prm.Type()})
 	}
